@@ -251,17 +251,18 @@ theorem resyncLoop_spec (snap : Tbl IP Rec) (hsnap : ∀ ip r0, Tbl.get snap ip 
       exact this
 
 theorem resync_spec (s : State) (order : List IP) (h : Inv s) :
-    Inv (resync Facts.good s order).1 ∧ (resync Facts.good s order).1.pods = s.pods ∧
+    Inv (resync Facts.good s order).1 ∧
+      ((resync Facts.good s order).1.pods = s.pods ∧ (resync Facts.good s order).1.admin = s.admin) ∧
       UnassignsWithin s (resync Facts.good s order).1 (NoLive s.pods) := by
   unfold resync
   dsimp only
   split
-  · exact ⟨h, rfl, UnassignsWithin.refl s _⟩
+  · exact ⟨h, ⟨rfl, rfl⟩, UnassignsWithin.refl s _⟩
   · have := resyncLoop_spec (List.filter (fun e => inChecklist e.2) s.alloc) (fun ip r0 hg => by
       have hm := Tbl.get_mem hg
       simp only [List.mem_filter] at hm
       exact inChecklist_not_admin r0 hm.2) order s h
-    exact ⟨this.1, this.2.1.pods, this.2.2⟩
+    exact ⟨this.1, ⟨this.2.1.pods, this.2.1.admin⟩, this.2.2⟩
 
 theorem inv_resync (s : State) (order : List IP) (f pf : Nat) (h : Inv s) :
     Inv (step Facts.good s (.resync order f pf)).1 := (resync_spec _ order (inv_withFaults s f pf h)).1
@@ -300,14 +301,15 @@ theorem releasePre_spec (s : State) (node : String) (ip : IP) (k : Key) (h : Inv
 
 theorem releaseAct_spec (s1 : State) (ip : IP) (k : Key) (uid : Nat) (node : String) (h1 : Inv s1)
     (hnl : ¬ (keyOwnedByRunningPod Facts.good s1 k uid).2 = true → ¬ LiveKey s1.pods k) (hip : ¬ LiveKey s1.pods k → NoLive s1.pods ip) :
-    Inv (releaseAct Facts.good s1 ip k uid node).1 ∧ (releaseAct Facts.good s1 ip k uid node).1.pods = s1.pods ∧
+    Inv (releaseAct Facts.good s1 ip k uid node).1 ∧ ((releaseAct Facts.good s1 ip k uid node).1.pods = s1.pods ∧
+      (releaseAct Facts.good s1 ip k uid node).1.admin = s1.admin) ∧
       UnassignsWithin s1 (releaseAct Facts.good s1 ip k uid node).1 (NoLive s1.pods) := by
   unfold releaseAct
   have kq := keyOwned_quiet Facts.good s1 k uid
   have hko := h1.quiet kq.1
   have lg1 : UnassignsWithin s1 (keyOwnedByRunningPod Facts.good s1 k uid).1 (NoLive s1.pods) := UnassignsWithin.of_plog_eq _ kq.2
   split
-  · exact ⟨hko, kq.1.frame.pods, lg1⟩
+  · exact ⟨hko, ⟨kq.1.frame.pods, kq.1.frame.admin⟩, lg1⟩
   · rename_i hown
     have hn := hnl hown
     have pre := releasePre_spec (keyOwnedByRunningPod Facts.good s1 k uid).1 node ip k hko
@@ -317,17 +319,19 @@ theorem releaseAct_spec (s1 : State) (ip : IP) (k : Key) (uid : Nat) (node : Str
     · have c := (release_chg (releasePre (keyOwnedByRunningPod Facts.good s1 k uid).1 node ip k).1 k ip).mono
         (fun _ x => x) isFree_uidZero
       refine ⟨pre.1.step_of_chg_key _ (by rw [pre.2.1.pods, kq.1.frame.pods]; exact hn)
-        (release_coherent _ _ _ pre.1.coh) c, ((kq.1.frame.trans pre.2.1).trans c.frame).pods, ?_⟩
+        (release_coherent _ _ _ pre.1.coh) c, ⟨((kq.1.frame.trans pre.2.1).trans c.frame).pods,
+          ((kq.1.frame.trans pre.2.1).trans c.frame).admin⟩, ?_⟩
       exact (lg1.trans pre.2.2).trans (UnassignsWithin.of_plog_eq _ (release_plog _ _ _))
-    · exact ⟨pre.1, (kq.1.frame.trans pre.2.1).pods, lg1.trans pre.2.2⟩
+    · exact ⟨pre.1, ⟨(kq.1.frame.trans pre.2.1).pods, (kq.1.frame.trans pre.2.1).admin⟩, lg1.trans pre.2.2⟩
 
 theorem apiRelease_spec (s : State) (ip : IP) (k : Key) (h : Inv s) (hna : k.isAdmin = false) :
-    Inv (apiRelease Facts.good s ip k).1 ∧ (apiRelease Facts.good s ip k).1.pods = s.pods ∧
+    Inv (apiRelease Facts.good s ip k).1 ∧
+      ((apiRelease Facts.good s ip k).1.pods = s.pods ∧ (apiRelease Facts.good s ip k).1.admin = s.admin) ∧
       UnassignsWithin s (apiRelease Facts.good s ip k).1 (NoLive s.pods) := by
   unfold apiRelease
   simp only [good_releaseRechecks, Bool.true_and]
   split
-  · exact ⟨h, rfl, UnassignsWithin.refl s _⟩
+  · exact ⟨h, ⟨rfl, rfl⟩, UnassignsWithin.refl s _⟩
   · rename_i hkey
     have hkey' : ((Tbl.get s.alloc ip).map (·.key)).getD Key.empty = k := by simpa using hkey
     have pq := podRunning_quiet Facts.good s k.pod k.ns (((Tbl.get s.alloc ip).map (·.uid)).getD 0)
@@ -335,7 +339,7 @@ theorem apiRelease_spec (s : State) (ip : IP) (k : Key) (h : Inv s) (hna : k.isA
     have lg0 : UnassignsWithin s (podRunning Facts.good s k.pod k.ns (((Tbl.get s.alloc ip).map (·.uid)).getD 0)).1
         (NoLive s.pods) := UnassignsWithin.of_plog_eq _ pq.2
     split
-    · exact ⟨hpr, pq.1.frame.pods, lg0⟩
+    · exact ⟨hpr, ⟨pq.1.frame.pods, pq.1.frame.admin⟩, lg0⟩
     · rename_i hrun
       have hrec : (∃ r, Tbl.get s.alloc ip = some r ∧ r.key = k ∧ r.uid = ((Tbl.get s.alloc ip).map (·.uid)).getD 0) ∨
           (Tbl.get s.alloc ip = none ∧ k = Key.empty) := by
@@ -359,7 +363,7 @@ theorem apiRelease_spec (s : State) (ip : IP) (k : Key) (h : Inv s) (hna : k.isA
         (fun hown => by rw [pq.1.frame.pods]; exact not_liveKey_of_checks s h k ip _ hrec hrun hown hna)
         (fun hn => by rw [pq.1.frame.pods] at hn ⊢; exact hnlip hn)
       rw [pq.1.frame.pods] at a
-      exact ⟨a.1, a.2.1, lg0.trans a.2.2⟩
+      exact ⟨a.1, ⟨a.2.1.1, a.2.1.2.trans pq.1.frame.admin⟩, lg0.trans a.2.2⟩
 
 theorem assumed_apiRelease {s : State} {ip : IP} {k : Key} {f pf : Nat} (ha : assumed s (.apiRelease ip k f pf) = true) :
     k.isAdmin = false := by
